@@ -1219,7 +1219,8 @@ def rule_cli(c: Ctx) -> RuleResult:
         mode = next((k.value for k in n.keywords if k.arg == "mode"), n.args[1] if len(n.args) > 1 else None)
         binary = isinstance(mode, ast.Constant) and isinstance(mode.value, str) and "b" in mode.value
         err = next((k.value for k in n.keywords if k.arg == "errors"), None)
-        ok_err = isinstance(err, ast.Constant) and err.value in ("ignore", "replace", "surrogateescape", "backslashreplace")
+        # surrogateescape / surrogatepass would smuggle lone surrogates into the text, and printing the result would raise
+        ok_err = isinstance(err, ast.Constant) and err.value in ("ignore", "replace", "backslashreplace")
         in_try = False
         p = f.module.parents.get(n)
         child: ast.AST = n
@@ -1241,5 +1242,120 @@ def rule_cli(c: Ctx) -> RuleResult:
         r.add("open|try", c.where(f, n), f.short, U(n), "discharged" if in_try else "violation",
               "inside the try that handles OSError" if in_try else
               "open() outside a handler for OSError: a missing / unreadable file escapes as a traceback")
-    r.floor = 2
+    _scalar_obligations(c, r)
+    r.floor = 3
     return r
+
+
+_SCALAR_CODECS = {"utf-8", "utf8", "utf_8", "u8", "ascii", "us-ascii", "latin-1", "latin1", "latin_1", "iso-8859-1", "iso8859-1", "cp1252"}
+
+
+def _scalar_obligations(c: Ctx, r: RuleResult) -> None:
+    """What the command line prints is encodable: parse / render build no string with a lone surrogate out of scalar-only
+    input.  Code points enter a string through the input, through chr() (CHR), and through *decoders*: a UTF-8 / ASCII /
+    Latin decoder (strict, ignore, replace) yields scalar values only; any other codec (punycode, idna, the escape codecs, or
+    the surrogateescape / surrogatepass handlers) can yield U+D800..U+DFFF from plain ASCII, and its result must be checked -
+    encoded once (which raises on a surrogate) or tested against the surrogate range - on every path before it is returned."""
+    n_sites = 0
+    for f in sorted(c.p.funcs.values(), key=lambda x: x.qual):
+        for call in [n for n in own_nodes(f.node) if isinstance(n, ast.Call)]:
+            fn = call.func
+            enc: ast.AST | None = None
+            errs: ast.AST | None = None
+            kind = None
+            if isinstance(fn, ast.Attribute) and fn.attr == "decode":
+                base = fn.value
+                if isinstance(base, ast.Name) and base.id == "codecs" and not c.tf.scope(f).is_local("codecs"):
+                    kind = "codecs.decode"
+                    enc = next((k.value for k in call.keywords if k.arg == "encoding"), call.args[1] if len(call.args) > 1 else None)
+                    errs = next((k.value for k in call.keywords if k.arg == "errors"), call.args[2] if len(call.args) > 2 else None)
+                else:
+                    r_ = c.p.resolve(f.module, base) if isinstance(base, (ast.Name, ast.Attribute)) else None
+                    if isinstance(r_, tuple) and r_[0] == "external":
+                        # a third-party module's function that happens to be called decode (mdurl.decode)
+                        r.add(f"scalar|{f.short}|{U(fn)}", c.where(f, call), f.short, U(call)[:70], "exempt",
+                              f"third-party decoder {r_[1]}.decode: assumed to return scalar values only (mdurl.decode replaces invalid "
+                              f"percent-encoded UTF-8, surrogate encodings included, by U+FFFD)")
+                        n_sites += 1
+                        continue
+                    if r_ is not None and not isinstance(r_, tuple):
+                        continue          # a module / function of the package named decode: its body is visited on its own
+                    kind = "bytes.decode"
+                    enc = next((k.value for k in call.keywords if k.arg == "encoding"), call.args[0] if len(call.args) > 0 else None)
+                    errs = next((k.value for k in call.keywords if k.arg == "errors"), call.args[1] if len(call.args) > 1 else None)
+            elif isinstance(fn, ast.Name) and fn.id == "str" and (len(call.args) >= 2 or any(k.arg == "encoding" for k in call.keywords)):
+                kind = "str(bytes, enc)"
+                enc = next((k.value for k in call.keywords if k.arg == "encoding"), call.args[1] if len(call.args) > 1 else None)
+                errs = next((k.value for k in call.keywords if k.arg == "errors"), call.args[2] if len(call.args) > 2 else None)
+            if kind is None:
+                continue
+            n_sites += 1
+            key = f"scalar|{f.short}|{kind}|{U(enc) if enc is not None else 'utf-8'}"
+            if errs is not None and not (isinstance(errs, ast.Constant) and errs.value in ("strict", "ignore", "replace", "backslashreplace", "xmlcharrefreplace")):
+                r.add(key, c.where(f, call), f.short, U(call)[:70], "violation",
+                      f"decoding with errors={U(errs)} can put lone surrogates into the text: printing the rendered result raises UnicodeEncodeError")
+                continue
+            if enc is None or (isinstance(enc, ast.Constant) and str(enc.value).lower() in _SCALAR_CODECS):
+                r.add(key, c.where(f, call), f.short, U(call)[:70], "discharged", "UTF-8 / ASCII / Latin decoder: yields Unicode scalar values only")
+                continue
+            ok = _surrogate_checked(c, f, call)
+            r.add(key, c.where(f, call), f.short, U(call)[:70], "discharged" if ok else "violation",
+                  "the decoded text is encoded / tested for surrogates on every path before it leaves the function" if ok else
+                  f"the {U(enc)} decoder accepts input that decodes to surrogate code points (U+D800..U+DFFF) and its result leaves the "
+                  f"function unchecked: the text reaches tokens and the rendered output, which then cannot be encoded "
+                  f"(the command line's print raises UnicodeEncodeError)")
+    if n_sites < 2:
+        raise AnchorError("no decoder call found in the package (the punycode helper and the URL decoder are expected)")
+
+
+def _surrogate_checked(c: Ctx, f: Func, call: ast.Call) -> bool:
+    """Every path from the statement holding the decoder call to a normal exit passes a statement that encodes the decoded value
+    (x.encode(...) with UTF-8, strict) or tests it against the surrogate range."""
+    cfg = c.cfg(f)
+    owners = cfg.owner(call)
+    if not owners:
+        return False
+    par = f.module.parents.get(call)
+    var: str | None = None
+    if isinstance(par, (ast.Assign, ast.AnnAssign)) and par.value is call:
+        t = par.targets[0] if isinstance(par, ast.Assign) else par.target
+        if isinstance(t, ast.Name):
+            var = t.id
+    if var is None:
+        return False
+
+    def is_check(a: ast.AST | None) -> bool:
+        if a is None:
+            return False
+        for n in ast.walk(a):
+            if isinstance(n, ast.Call) and isinstance(n.func, ast.Attribute) and n.func.attr == "encode" and isinstance(n.func.value, ast.Name) \
+                    and n.func.value.id == var:
+                enc = next((k.value for k in n.keywords if k.arg == "encoding"), n.args[0] if n.args else None)
+                errs = next((k.value for k in n.keywords if k.arg == "errors"), n.args[1] if len(n.args) > 1 else None)
+                if (enc is None or (isinstance(enc, ast.Constant) and "utf" in str(enc.value).lower())) \
+                        and (errs is None or (isinstance(errs, ast.Constant) and errs.value == "strict")):
+                    return True
+        txt = U(a).lower()
+        if var in {x.id for x in ast.walk(a) if isinstance(x, ast.Name)} and ("d800" in txt or "55296" in txt or "issurrogate" in txt):
+            return True
+        return False
+    seen: set[int] = set()
+    work = []
+    for o in owners:
+        for (m, lab) in o.succ:
+            if lab != "exc":
+                work.append(m)
+    while work:
+        n = work.pop()
+        if n.id in seen:
+            continue
+        seen.add(n.id)
+        if n is cfg.exit:
+            return False
+        if n.kind in ("stmt", "test") and is_check(n.ast):
+            # the check raises (encode) or branches (test): either way the unchecked value does not pass silently
+            continue
+        for (m, lab) in n.succ:
+            if lab != "exc":
+                work.append(m)
+    return True
